@@ -26,7 +26,7 @@ func init() {
 	simkit.Register(&simkit.Prop{
 		ID:   "C40",
 		Desc: "chain queries agree with the single-copy log of committed blocks, across header-index window, block cache, clean restarts and crash recoveries",
-		Rule: "a run = one solo ledger and the harness's log of the blocks it committed; blocks carry 0..5 ONT/ONG transfers; mostly 3..60 blocks, in about one run of 25 (quick; one of 6 thorough) a long chain of 2003..2100 mostly empty blocks that crosses the 2000-entry header index window; generated operations: commit next block, clean restart, crash at a tape-chosen mutating disk call inside the commit (optionally torn, optionally a second crash inside recovery, hash-file tail cut) followed by reopen and re-submission of the lost block; after every block (sampled on long chains) and as a full sweep after every restart/recovery and at the end, for every checked height GetBlockHash, GetBlockByHeight, GetBlockByHash, GetHeaderByHash, GetHeaderByHeight, GetRawHeaderByHash, IsContainBlock, and for every transaction GetTransaction (+height) and IsContainTransaction are compared byte for byte with the log; tip queries (current block hash/height, header height/hash) with the log's end; heights above the tip, random hashes, bit-flipped hashes, hashes of never committed blocks/transactions (including the block lost in a crash) and hashes used with the wrong kind of query must be reported absent. Long chains always check heights 0, 1, tip-2001..tip-1999, tip, every non-empty block and random samples. non-trivial = a clean restart or crash recovery happened after a block with at least two transactions was committed and the sweep after it ran; distinct = distinct event-trace hash",
+		Rule: "a run = one solo ledger and the harness's log of the blocks it committed; blocks carry 0..5 ONT/ONG transfers; mostly 3..60 blocks, in about one run of 25 (quick; one of 6 thorough) a long chain of 2003..2100 mostly empty blocks that crosses the 2000-entry header index window; generated operations: commit next block (now and then after the node synced a header for that height: the block's own or a competing block's), clean restart, crash at a tape-chosen mutating disk call inside the commit (optionally torn, optionally a second crash inside recovery, hash-file tail cut) followed by reopen and re-submission of the lost block; after every block (sampled on long chains) and as a full sweep after every restart/recovery and at the end, for every checked height GetBlockHash, GetBlockByHeight, GetBlockByHash, GetHeaderByHash, GetHeaderByHeight, GetRawHeaderByHash, IsContainBlock, and for every transaction GetTransaction (+height) and IsContainTransaction are compared byte for byte with the log; tip queries (current block hash/height, header height/hash) with the log's end; heights above the tip, random hashes, bit-flipped hashes, hashes of never committed blocks/transactions (including the block lost in a crash) and hashes used with the wrong kind of query must be reported absent. Long chains always check heights 0, 1, tip-2001..tip-1999, tip, every non-empty block and random samples. non-trivial = a clean restart or crash recovery happened after a block with at least two transactions was committed and the sweep after it ran; distinct = distinct event-trace hash",
 		Real: []string{"core/store/ledgerstore (ledger store queries, block store + block/transaction cache, header index cache, loadHeaderIndexList, recoverStore, ExecuteBlock/SubmitBlock)", "core/types block/header/transaction codecs", "core/store/leveldbstore + goleveldb on SimDisk", "smartcontract + native ONT/ONG execution"},
 		Stub: []string{"solo block producer (harness, as consensus/solo)", "disk: in-memory goleveldb storage with fail-stop/torn-write injection", "wasm JIT (stub archive)"},
 		Assumptions: []string{
@@ -263,6 +263,23 @@ func (r *c40Run) makeBlock() *types.Block {
 		r.ghostBlocks = append(r.ghostBlocks, ghost.Hash())
 		gt := r.newTx()
 		r.ghostTxs = append(r.ghostTxs, gt.Hash())
+	}
+	// header-first sync: before the block is committed the node has synced a header for
+	// that height - the block's own, or the header of a competing proposal that lost
+	if !r.long && t.Prob(1, 6) {
+		hdr := blk.Header
+		what := "its own header"
+		if t.Bool() {
+			hdr = r.ch.MakeBlock(txs, r.ts+2, uint64(r.nonce)<<8|2).Header
+			what = "the header of a competing block"
+		}
+		if r.ch.Store.GetCurrentHeaderHeight() == r.ch.Store.GetCurrentBlockHeight() {
+			err := r.ch.Store.AddHeaders([]*types.Header{hdr})
+			r.c.Logf("height %d: %s synced before the block is committed -> err=%v", hdr.Height, what, err)
+			if err == nil {
+				r.c.Probe("header_synced_before_block")
+			}
+		}
 	}
 	return blk
 }
